@@ -104,7 +104,10 @@ def check_records(ctx, recs, binary, reconfirm=True):
             sig = "%s:%s" % (r["kind"], r["hang_what"])
             if r["hang_what"] == "exchange-does-not-return":
                 evs_ = [e["ev"] for e in r["events"]]
-                if r["kind"] == "udp" and "UdpAnswer" in evs_:
+                returned = {e["c"] for e in r["events"] if e["ev"] == "Return"}
+                answered_udp = {e["c"] for e in r["events"] if e["ev"] == "UdpAnswer"}
+                stuck = {e["c"] for e in r["events"] if e["ev"] in ("Call", "CallLate")} - returned
+                if r["kind"] == "udp" and answered_udp and stuck and not (stuck & answered_udp):
                     sig += ":unanswered-udp-query-after-another-reply-was-read"
                 elif "Accepted" not in evs_:
                     sig += ":connect"
@@ -184,8 +187,8 @@ def run_extra(ctx):
         pool_ += vlib.tlc_behaviours(ctx, SPEC, "UpDial_gen.cfg", simulate=num * (4 if T else 1), depth=80, label="gen calls=" + calls,
                                      name="gen_%d" % len(calls), cfg_text=cfg_with("UpDial_gen.cfg", InitCalls=calls))
     pool_ = [b for b in pool_ if "Call" in acts(b)]
-    def d16_shape(b):
-        """udp: the call that opened the socket is never answered while another call on the same socket is (defect D16)"""
+    def d17_shape(b):
+        """udp: the call that opened the socket is never answered while another call on the same socket is (defect D17)"""
         if b["kind"] != "udp" or "Cancel" in acts(b):
             return False
         st = b["steps"]
@@ -197,9 +200,9 @@ def run_extra(ctx):
             acts(b).index("Close") > to[0] and not any(s_["a"] == "UdpAnswer" and s_["tc"] for s_ in st)
     udp2 = vlib.tlc_behaviours(ctx, SPEC, "UpDial_gen.cfg", simulate=400, depth=80, label="gen udp, 2 calls", name="gen_udp2",
                                cfg_text=cfg_with("UpDial_gen.cfg", Kinds='{"udp"}', Listens='{"refuse"}', LateCall="0", EnvCancel="FALSE"))
-    d16 = [b for b in pool_ + udp2 if d16_shape(b)]
-    if not d16:
-        raise vlib.Infra("updial: the generator produced no scenario of the D16 shape")
+    d17 = [b for b in pool_ + udp2 if d17_shape(b)]
+    if not d17:
+        raise vlib.Infra("updial: the generator produced no scenario of the D17 shape")
     if not T:
         pool_ = [b for b in pool_ if not (long_wait(b) and acts(b).count("Call") > 1)]
     # strata: what kind of fault the scenario contains; the ones in which a dial hangs (the quantifier of the property) come first
@@ -210,15 +213,15 @@ def run_extra(ctx):
         hangs = ("Call" in env or "UdpAnswer" in env) and (hs_silent or (b["listen"] == "hang" and (b["kind"] != "udp" or any(
             s_["a"] == "UdpAnswer" and s_["tc"] for s_ in b["steps"]))))
         close_early = "Close" in a and ("Tick12" not in a or a.index("Close") < a.index("Tick12"))
-        return (b["kind"], b["listen"], a.count("Call"), hangs, close_early, "Cancel" in env, "Answer" in env or "SrvClose" in env,
-                "CallLate" in env)
+        return (b["kind"], b["listen"], a.count("Call"), hangs, close_early, "Cancel" in env and a.count("Call") == 1,
+                ("Answer" in env) + 2 * ("SrvClose" in env))
     groups = {}
     for b in pool_:
         groups.setdefault(stratum(b), []).append(b)
     keys = sorted(groups, key=repr)
     rng.shuffle(keys)
     keys.sort(key=lambda k: (not k[3], k[5], k[2]))     # hanging dials first, without cancel first, single call first
-    want = 700 if T else 170
+    want = 700 if T else min(230, max(170, len(keys) + 10))      # every stratum at least once
     for k in keys:
         rng.shuffle(groups[k])
     behs, rnd = [], 0
@@ -235,8 +238,8 @@ def run_extra(ctx):
         if b["kind"] not in have and b not in behs:
             have.add(b["kind"])
             behs.append(b)
-    if d16 and not any(d16_shape(b) for b in behs):
-        behs.append(rng.choice(d16))
+    if d17 and not any(d17_shape(b) for b in behs):
+        behs.append(rng.choice(d17))
     behs.sort(key=lambda b: -(10 * ("Tick12" in acts(b)) + 20 * long_wait(b)))        # long ones first
     log("replaying %d scenarios (%d shapes, %d strata; %d wait for the dial timeout, %d for a query liveness timeout)" % (
         len(behs), len({shape(b) for b in behs}), len(keys), sum("Tick12" in acts(b) for b in behs), sum(long_wait(b) for b in behs)))
